@@ -101,7 +101,17 @@ def composed_corpus(ctx: Ctx, path: Path) -> int:
     units, setups = [], []
     pairs = [(o, p, i) for o in pure for p, t in o.params.items() for i in inner_by_tag.get(t, [])]
     ctx.rng.shuffle(pairs)
-    for k, (o, p, i) in enumerate(pairs[: ctx.budget(250, 2500)]):
+    # where the composed expression stands: a plain statement, or one of the condition-like places (checks that look at conditions
+    # see it there before the traversal reaches the operands).  Every pair of check codes is placed once as a statement and once in a
+    # condition-like place (rotating); the rest of the budget goes to further pairs.
+    PLACES = ["_ = {E}", "if {E}:\n        pass", "while {E}:\n        break", "assert {E}", "_ = 1 if ({E}) else 2", "_ = [1 for _q in () if ({E})]", "return {E}"]
+    first_of_code_pair: dict = {}
+    for o, p, i in pairs:
+        first_of_code_pair.setdefault((o.code, i.code, o.params[p]), (o, p, i))        # per type of the shared operand too: what a check does to a list it need not do to a str
+    chosen = [(t3, 0) for t3 in first_of_code_pair.values()] + [(t3, 1 + k_ % (len(PLACES) - 1)) for k_, t3 in enumerate(first_of_code_pair.values())]
+    chosen += [(t3, k_ % len(PLACES)) for k_, t3 in enumerate(pairs[: ctx.budget(250, 2500)])]
+    ctx.count("composed-code-pairs", len(first_of_code_pair))
+    for k, ((o, p, i), place) in enumerate(chosen):
         ren = {q: f"i_{q}" for q in i.params}
 
         class Ren(ast.NodeTransformer):
@@ -120,7 +130,7 @@ def composed_corpus(ctx: Ctx, path: Path) -> int:
         for st in (o.setup, i.setup):
             if st and st not in setups:
                 setups.append(st)
-        units.append(f"def _c{k}({', '.join(params)}):\n    _ = {expr}\n")
+        units.append(f"def _c{k}({', '.join(params)}):\n    " + PLACES[place].replace("{E}", expr) + "\n")
     # two checks on the very same node: an idiom passed as an argument that equals the parameter's default (FURB120 reports the
     # argument, the idiom's own check reports the same expression)
     for k, r in enumerate(pure[: ctx.budget(120, 400)]):
